@@ -272,16 +272,18 @@ var specs = map[string]*CheckSpec{
 			{Name: "c10.mutate", Count: 12000},
 			{Name: "c10.random", Count: 4000},
 			{Name: "c10.sweep", Count: 16, Extra: map[string]any{"stride": 16}},
+			{Name: "c10.scope", Count: 12000},
 		},
 		Thorough: []Batch{
 			{Name: "c10.mutate", Count: 600000},
 			{Name: "c10.random", Count: 200000},
 			{Name: "c10.sweep", Count: 160, Extra: map[string]any{"stride": 1}},
+			{Name: "c10.scope", Count: 600000},
 		},
-		Rule:   "each run = Client.ReadSchema against a scripted server whose hello carries a generated plugin description with 1-2 structural mutations (delete / retype / rename / duplicate / re-point / null / extreme) at tape-chosen nodes, or a grammar-free random tree; an accepted schema is then used as an engine would (Unserialize/Validate/Serialize/ValidateCompatibility on generated valid and invalid inputs for every step input, output and signal schema, SelfSerialize); sweep batches apply every mutation kind at every node (thorough) or every 6th node (quick) of a base description; distinct = distinct mutation set; non-trivial = at least one mutation applied",
+		Rule:   "each run = Client.ReadSchema against a scripted server whose hello carries a generated plugin description with 1-2 structural mutations (delete / retype / rename / re-key / duplicate / re-point / null / extreme) at tape-chosen nodes, or a grammar-free random tree; batch c10.scope hands mutated (and unmutated) scope descriptions to schema.UnserializeScope directly, where loading = UnserializeScope + ApplySelf + ValidateReferences; an accepted schema is then used as an engine would (Unserialize/Validate/Serialize/ValidateCompatibility on generated valid and invalid inputs for every step input, output and signal schema, SelfSerialize); sweep batches apply every mutation kind at every node (thorough) or every 6th node (quick) of a base description; distinct = distinct mutation set; non-trivial = at least one mutation applied",
 		Real:   []string{"atp client ReadSchema", "schema.UnserializeSchema and the whole schema package on the accepted result", "fxamacker/cbor"},
 		Stub:   append([]string{"atp server -> scripted hello sender"}, commonStub...),
-		Assume: []string{"the schedule dimension is degenerate (one engine goroutine); what is explored is the fault space of the hello message", "UnserializeScope called directly is not covered", "a CPU-bound hang would surface as a worker timeout (exit 2), not as a verdict"},
+		Assume: []string{"the schedule dimension is degenerate (one engine goroutine); what is explored is the fault space of the hello message", "a CPU-bound hang would surface as a worker timeout (exit 2), not as a verdict"},
 	},
 	"C05": {
 		ID: "C05", Flavour: "atp", Level: "exploration",
